@@ -284,6 +284,22 @@ var (
 	c10EmptyDelta     *x509.RevocationList
 )
 
+var c10Siblings sync.Map // *crlWorld -> *pki.Cert
+
+// c10Sibling is another leaf of the same issuer with the same distribution point, whose serial number is the one the other-serial
+// entries carry.
+func c10Sibling(w *crlWorld) *pki.Cert {
+	if s, ok := c10Siblings.Load(w); ok {
+		return s.(*pki.Cert)
+	}
+	t := pki.LeafTmpl("c10 sibling")
+	t.Serial = big.NewInt(424242)
+	t.CRL = w.leaf.X.CRLDistributionPoints
+	sib := pki.Issue(t, pki.K("p256-f"), w.root, nil)
+	c10Siblings.Store(w, sib)
+	return sib
+}
+
 func c10Body(c *mc.Ctx, alpha []c10Entry, L, split int, stSet bool) {
 	c10BodyVia(c, alpha, L, split, stSet, false)
 }
@@ -318,8 +334,18 @@ func c10BodyVia(c *mc.Ctx, alpha []c10Entry, L, split int, stSet bool, fallback 
 			callValidate(pv, context.Background(), revocation.ValidateContextOptions{CertChain: []*x509.Certificate{w.leaf.X, w.root.X}})
 		}
 	}
+	shared := &corecrl.Bundle{BaseCRL: base, DeltaCRL: delta}
+	if L <= 2 && !fallback {
+		// the same bundle *object* (as a cache would hand it out) has just answered for a sibling certificate - the one the
+		// other-serial entries of the alphabet are about: checking one certificate must not change what the lists say about another
+		sib := c10Sibling(w)
+		sf := netsim.FetcherFunc(func(ctx context.Context, u string) (*corecrl.Bundle, error) { return shared, nil })
+		if sv, err := revocation.NewWithOptions(revocation.Options{OCSPHTTPClient: noNetClient, CRLFetcher: sf, CertChainPurpose: purpose.CodeSigning}); err == nil {
+			callValidate(sv, context.Background(), revocation.ValidateContextOptions{CertChain: []*x509.Certificate{sib.X, w.root.X}})
+		}
+	}
 	fetcher := netsim.FetcherFunc(func(ctx context.Context, u string) (*corecrl.Bundle, error) {
-		return &corecrl.Bundle{BaseCRL: base, DeltaCRL: delta}, nil
+		return shared, nil
 	})
 	v, err := revocation.NewWithOptions(revocation.Options{OCSPHTTPClient: noNetClient, CRLFetcher: fetcher, CertChainPurpose: purpose.CodeSigning})
 	if err != nil {
